@@ -2469,6 +2469,7 @@ impl XmlElement {
             self.attributes
                 .retain(|v| v.as_attribute().unwrap().borrow().local_name() != name);
             v.clear_order();
+            v.set_parent_id(None);
             Some(v)
         } else {
             None
